@@ -618,3 +618,10 @@ MUTATIONS += [
     dict(id="C03-prune-repacker-error-swallowed", prop="C03", file=PR, old="        _ = data_repacker.finalize()?;\n        indexer.write().unwrap().finalize()?;", new="        _ = data_repacker.finalize();\n        indexer.write().unwrap().finalize()?;"),
     dict(id="C03-copy-blobs-finalize-error-swallowed", prop="C03", file="crates/core/src/commands/copy.rs", old="    _ = copier.finalize()?;\n    p.finish();", new="    _ = copier.finalize();\n    p.finish();"),
 ]
+
+MUTATIONS += [
+    dict(id="C04-init-key-constant", prop="C04", file="crates/core/src/commands/key.rs", old="    let key = Key::new();", new="    let key = Key::default();"),
+    dict(id="C14-matching-file-longer-accepted", prop="C14", file="crates/core/src/backend/local_destination.rs", old="                if meta.is_file() && meta.len() == size {", new="                if meta.is_file() && meta.len() >= size {"),
+    dict(id="C07-has-only-while-collecting", prop="C07", file="crates/core/src/index/indexer.rs", old="        self.indexed\n            .as_ref()\n            .is_some_and(|indexed| indexed.contains(&(tpe, *id)))", new="        self.count > 0\n            && self\n                .indexed\n                .as_ref()\n                .is_some_and(|indexed| indexed.contains(&(tpe, *id)))"),
+    dict(id="C02-marked-only-index-not-saved", prop="C02", file="crates/core/src/index/indexer.rs", old="        if (self.file.packs.len() + self.file.packs_to_delete.len()) > 0 {", new="        if !self.file.packs.is_empty() {"),
+]
